@@ -6,12 +6,12 @@
 // encoders and the real streaming scanner did.  It contains no element, attribute or JSON key
 // name, no expected value and no property logic.
 //
-//   -mode c03   {doc, tree, unk}         -> print tree under -layouts seeded layouts; xml.Unmarshal; osmxml.Scanner
-//   -mode c04   {root, v}                -> build value; xml.Marshal; generic parse; xml.Unmarshal; osmxml.Scanner
-//   -mode c05   {kind:"rt", root, v}     -> build value; json.Marshal; generic parse; json.Unmarshal
-//               {kind:"doc", root, jtree, unk} -> print JSON tree under a seeded layout; json.Unmarshal
-//               -codec std|custom (a codec installed as osm.CustomJSONMarshaler/Unmarshaler), -top std|codec
-//   -mode scan  {toks, pieces, ops, idfield} -> run the call history on the real scanner, one byte per read, log events
+//	-mode c03   {doc, tree, unk}         -> print tree under -layouts seeded layouts; xml.Unmarshal; osmxml.Scanner
+//	-mode c04   {root, v}                -> build value; xml.Marshal; generic parse; xml.Unmarshal; osmxml.Scanner
+//	-mode c05   {kind:"rt", root, v}     -> build value; json.Marshal; generic parse; json.Unmarshal
+//	            {kind:"doc", root, jtree, unk} -> print JSON tree under a seeded layout; json.Unmarshal
+//	            -codec std|custom (a codec installed as osm.CustomJSONMarshaler/Unmarshaler), -top std|codec
+//	-mode scan  {toks, pieces, ops, idfield} -> run the call history on the real scanner, one byte per read, log events
 package main
 
 import (
